@@ -19,6 +19,8 @@ POINTS = [
     {"a": 1, "b": 0}, {"a": 1.0, "b": 0}, {"a": 1, "c": 5}, {"a": 1, "c": {"d": 5}},
     {"a": 2, "c": {"d": 5}}, {"a": 2, "c": {"d": 6, "e": 7}}, {"b": 0}, {"a": -2}, {"a": -2.0},
     {"a": 0, "b": False},
+    # the same list-of-mappings value written with two key orders
+    {"a": 1, "l": [{"s": "A", "c": 1}]}, {"a": 2, "l": [{"c": 1, "s": "A"}]},
 ]
 
 
